@@ -16,7 +16,7 @@ from vlib import core, corr
 
 DEPENDS = ["RecBase", "Reno", "Cubic", "Pacer", "Recovery", "RecoveryFloat", "C08Consts", "RecoveryProofs",
            "RenoProofs", "CubicProofs", "RangeSet", "Base", "Tok", "C08",
-           "Builder", "C13Consts", "BuilderProofs", "BuilderFlight", "FlightBudget"]
+           "Builder", "C13Consts", "BuilderProofs", "BuilderFlight", "BuilderFlightAE", "FlightBudget", "FloatMono", "CubicFloor"]
 GENERATORS = ["c08_consts", "c13_consts"]
 TRUSTED_BASE = [
     "vm_compute evaluation of the PrimFloat instance (coqc, no extraction); Coq's primitive floats = IEEE binary64 "
@@ -1223,8 +1223,8 @@ def _fl_eval(case):
     """flight_le_budget coded on the real builder (public behaviour only; the discipline is recomputed here from the
     ops and the public properties, independently of the model): in a history that respects the caller discipline
     (C13's clauses + the three flight clauses) the sent_bytes of ALL packets with in_flight set sum up to at most
-    max(0, max_flight_bytes).  Also, empirically (not a theorem): without clause 3 (one-byte ACK-only packets allowed)
-    the same holds for the ack-eliciting in-flight packets; and every datagram is <= max_datagram_size.
+    max(0, max_flight_bytes).  Without clause 3 (one-byte ACK-only packets allowed) the same holds for the ack-eliciting
+    in-flight packets (flight_le_budget_ack_eliciting); and every datagram is <= max_datagram_size.
     Returns (violation or None, disciplined, clause 3 respected, in-flight bytes, in-flight packets)."""
     c13 = _c13()
     cfg = case["cfg"]
